@@ -24,6 +24,7 @@ Post(p) ==
     /\ {<<i, cps'[i]>> : i \in DOMAIN cps'} = ToSet(p.cps)
     /\ defunct' = p.defunct
     /\ closed' = p.closed
+    /\ writable' = p.writable
 
 TraceInit == tid \in 1..NTraces /\ l = 1 /\ Init
 
@@ -39,6 +40,8 @@ TraceNext ==
           \/ e.e = "Timeout"     /\ Timeout(e.r)
           \/ e.e = "SocketError" /\ SocketError
           \/ e.e = "Close"       /\ Close
+          \/ e.e = "SocketBusy"     /\ SetWritable(FALSE)
+          \/ e.e = "SocketWritable" /\ SetWritable(TRUE)
        /\ Post(e.post)
 
 TraceSpec == TraceInit /\ [][TraceNext]_tvars
